@@ -5,8 +5,13 @@ use crate::ops::*;
 pub fn shrink(h: &History, budget: usize, mut still_fails: impl FnMut(&History) -> bool) -> History {
     let mut cur = h.clone();
     let mut left = budget;
+    // shrinking is cosmetic (smaller replay files): never spend more than half a minute on one witness
+    let deadline = std::time::Instant::now() + std::time::Duration::from_secs(30);
     macro_rules! attempt {
         ($cand:expr) => {{
+            if left > 0 && std::time::Instant::now() > deadline {
+                left = 0;
+            }
             if left == 0 {
                 false
             } else {
